@@ -3,18 +3,34 @@ main workspace exactly once, and nothing from libraries or the standard library.
 byte-identical output."
 
 Code under proof (extracted on every run, never typed):
-  crates/emmylua_doc_cli/src/json_generator/export.rs   export, export_modules (+ its filter_map closure body as a statement
-                                                        slice), export_types, export_globals (+ closure body slice)
+  crates/emmylua_doc_cli/src/json_generator/export.rs   export, export_types, export_modules (+ the body of its filter_map
+                                                        closure as the statement slice export_modules__item), export_globals
+                                                        (+ closure body slice export_globals__item)
   crates/emmylua_code_analysis/src/db_index/type/mod.rs       LuaTypeIndex::get_all_types
   crates/emmylua_code_analysis/src/db_index/module/mod.rs     LuaModuleIndex::{get_module_infos, is_main}
   crates/emmylua_code_analysis/src/db_index/global/mod.rs     LuaGlobalIndex::get_all_global_decl_ids
-  + the structs / enums / consts they read (ModuleInfo, WorkspaceId(+MAIN), LuaTypeDecl, LuaTypeExtra, LuaDeclLocation,
-    LuaDeclId, DbIndex and its getters, Index / Module / Type / Global / GlobalTable / GlobalField of json_types.rs).
+  + LuaTypeDecl::{get_locations, is_class, is_enum, is_alias, get_id, get_full_name}, six DbIndex getters, and the data they
+    read: FileId, WorkspaceId (+ MAIN), ModuleInfo, LuaModuleIndex, LuaTypeIndex, LuaGlobalIndex, LuaDeclId, LuaDeclLocation,
+    LuaTypeExtra, LuaTypeDecl, DbIndex (projected), Index / Module / Type / Global / GlobalTable / GlobalField of json_types.rs.
 
 The iterator pipelines are desugared to explicit loops by the unit-local rules below (each one is the std definition of the
 adapter, mechanical, and refuses — Undecided — when the text is not in the expected shape). The per-item renderers
 (export_class / export_enum / export_alias / export_members / export_property / export_loc / render_typ / render_const)
 are external_body shims with uninterpreted results.
+
+CLAUSES
+  (a) C35.<kind>.exactly-once / .nothing-from-libraries   kind in types, modules, globals (+ C35.export.*): there is a
+      duplicate-free list of keys containing every selected item whose i-th element the i-th entry belongs to; and every
+      listed key is a selected one. Selected = stored in the index AND in the MAIN workspace (types: some location).
+      C35.<kind>.accessor-yields-every-*-once: the hash-map accessors return every value exactly once, in NO specified order
+      (existential enumeration). C35.is-main-means-main-workspace. C35.modules.every-main-module-listed (or, under the
+      by-design reading, .listed-iff-exports-a-value), C35.globals.listed-iff-declared-and-typed, C35.*.entry-names-its-*.
+  (b) C35.output-independent-of-hash-order: the i-th entry belongs to the i-th element of canonical_<kind>_keys(db), the
+      selected keys in ascending key order — defined from the maps' VIEWS (mathematical maps), hence a function of the index
+      contents. Holds only if the function sorts by a total order whose ties are identical items (C35.sort-key = contract
+      of the comparator closure, proved; comparator totality = precondition of sort_by, proved).
+ON THE UNCHANGED TREE (b) FAILS for export_types / export_modules / export_globals (nothing sorts: FINDING, replay/c35),
+and C35.modules.every-main-module-listed fails (reading-dependent finding). With the proposed repair the unit exits 0.
 """
 import os
 import re
@@ -30,10 +46,6 @@ JSON = 'crates/emmylua_doc_cli/src/json_generator/json_types.rs'
 DB = 'crates/emmylua_code_analysis/src/db_index/'
 
 _CTRL = re.compile(r'\b(return|break|continue)\b|\?')
-
-
-def _ws(s):
-    return ' '.join(s.split())
 
 
 # ---------------------------------------------------------------------------------------------------------------------
@@ -233,10 +245,6 @@ def sort_closure_contract(text, ty=None, spec=None, **_):
                    '.sort_by(|a: &%s, b: &%s| -> (o: Ordering)\n        ensures o == %s /*@C35.sort-key*/\n    {' % (ty, ty, spec), text)
 
 
-def slice_body_check():
-    pass
-
-
 # ---------------------------------------------------------------------------------------------------------------------
 # contracts
 # ---------------------------------------------------------------------------------------------------------------------
@@ -301,6 +309,7 @@ ITEMS.update({
     'DbIndex::get_module_index': getter('get_module_index', 'modules_index'),
     'DbIndex::get_vfs': getter('get_vfs', 'vfs'),
     'DbIndex::get_global_index': getter('get_global_index', 'global_index'),
+    'DbIndex::get_emmyrc': {'src': {'file': DB + 'mod.rs', 'kind': 'fn', 'impl': 'DbIndex', 'name': 'get_emmyrc'}},
     # ---- the three index accessors + is_main (real) ----
     'LuaTypeIndex::get_all_types': {
         'src': {'file': DB + 'type/mod.rs', 'kind': 'fn', 'impl': 'LuaTypeIndex', 'name': 'get_all_types'},
